@@ -300,6 +300,17 @@ impl Store {
 
 #[cfg(feature = "verif-hooks")]
 impl Store {
+    /// Verification hook: which kind of transaction the store currently holds ("none", "read"
+    /// or "write"). Explorers put it into their canonical state, because later operations may
+    /// behave differently depending on it.
+    pub fn verif_transaction_kind(&self) -> &'static str {
+        match self.transaction {
+            CurrentTransaction::None => "none",
+            CurrentTransaction::Read(_) => "read",
+            CurrentTransaction::Write(_) => "write",
+        }
+    }
+
     /// Verification hook: report a store access point; if the harness answers "old", back-date
     /// the open write transaction so that the regular age check below commits it.
     fn verif_access(&mut self, kind: crate::verif::AccessKind) {
